@@ -97,6 +97,7 @@ def register(gen, T):
                    "  | negMinus (k : LitKind)       -- Minus(Literal::k(-v as u64)), `-v` computed in the constant's own width\n"
                    "  | negMinusAbs (k : LitKind)    -- Minus(Literal::k(u64::from(v.unsigned_abs()))): total\n"
                    "  | panics\n"
+                   "  | errs (e : String)            -- `return Err(GenerateError::e)`: the export is refused with a diagnostic, no panic\n"
                    "  | enumLookup\n"
                    "  deriving DecidableEq, Repr, Inhabited\n\n")
         rows = []
@@ -116,6 +117,10 @@ def register(gen, T):
                 arm, gk = ".enumLookup", "always"
             elif r.startswith("panic!"):
                 arm, gk = ".panics", "always" if g is None else None
+            elif re.fullmatch(r'return Err\(GenerateError::([A-Za-z0-9]+)\)', r):
+                # since fix 6017bad: an IntLiteral beyond +-u64::MAX is `Err(GenerateError::IntLiteralOutOfRange)`
+                em = re.fullmatch(r'return Err\(GenerateError::([A-Za-z0-9]+)\)', r)
+                arm, gk = f".errs {lean_str(em.group(1))}", "always" if g is None else None
             else:
                 m = re.fullmatch(r'ast::Literal::([A-Za-z0-9]+)\((.*)\)', r)
                 mneg = re.search(r'return Ok\(ast::Expression::UnaryOperation\( ast::UnaryOp::Minus, Box::new\(Located::none\('
